@@ -79,6 +79,48 @@ fn rows_json(text: &str) -> Vec<Row> {
     }).collect()
 }
 
+/// the statistics columns of every row, as printed
+fn stats_shown(kind: &str, text: &str) -> Vec<Vec<String>> {
+    match kind {
+        "csv" => text.lines().skip(1).filter(|l| !l.trim().is_empty()).map(|l| {
+            let f: Vec<&str> = l.split(',').collect();
+            [5usize, 8, 9, 10, 11, 12].iter().map(|i| f.get(*i).copied().unwrap_or("").to_string()).collect()
+        }).collect(),
+        "markdown" | "pretty" => {
+            let mut out = vec![];
+            for line in text.lines() {
+                let line = line.replace('┆', "|").replace('│', "|");
+                if !line.starts_with('|') { continue; }
+                let cells: Vec<String> = line.trim_matches('|').split('|').map(|c| c.trim().to_string()).collect();
+                if cells.len() < 11 || cells[0] == "Hop" || cells[0].starts_with('-') || cells[0].is_empty() { continue; }
+                out.push([3usize, 6, 7, 8, 9, 10].iter().map(|i| cells[*i].clone()).collect());
+            }
+            out
+        }
+        _ => {
+            let Some(h) = text.find("\"hops\"") else { return vec![] };
+            text[h..].split("\"ttl\":").skip(1).map(|seg| {
+                ["loss_pct", "last", "avg", "best", "worst", "stddev", "jitter", "javg", "jmax", "jinta"].iter().map(|k| {
+                    let key = format!("\"{k}\":");
+                    seg.find(&key).map_or(String::new(), |i| seg[i + key.len()..].trim_start().trim_start_matches('"').chars().take_while(|c| *c != '"' && *c != ',' && *c != '\n').collect())
+                }).collect()
+            }).collect()
+        }
+    }
+}
+
+/// the same columns from the hop's accessors, formatted as that report formats them
+fn stats_wanted(kind: &str, h: &trippy_core::Hop) -> Vec<String> {
+    let opt1 = |v: Option<f64>| v.map_or_else(|| "???".to_string(), |x| format!("{x:.1}"));
+    match kind {
+        "csv" => vec![format!("{:.2}", h.loss_pct()), opt1(h.last_ms()), format!("{:.2}", h.avg_ms()), opt1(h.best_ms()), opt1(h.worst_ms()), format!("{:.2}", h.stddev_ms())],
+        "markdown" | "pretty" => vec![format!("{:.1}", h.loss_pct()), opt1(h.last_ms()), format!("{:.1}", h.avg_ms()), opt1(h.best_ms()), opt1(h.worst_ms()), format!("{:.1}", h.stddev_ms())],
+        _ => vec![format!("{:.2}", h.loss_pct()), format!("{:.2}", h.last_ms().unwrap_or_default()), format!("{:.2}", h.avg_ms()),
+                  format!("{:.2}", h.best_ms().unwrap_or_default()), format!("{:.2}", h.worst_ms().unwrap_or_default()), format!("{:.2}", h.stddev_ms()),
+                  format!("{:.2}", h.jitter_ms().unwrap_or_default()), format!("{:.2}", h.javg_ms()), format!("{:.2}", h.jmax_ms().unwrap_or_default()), format!("{:.2}", h.jinta())],
+    }
+}
+
 fn case(run: &mut Run, rng: &mut Rng, dns: &DnsResolver) {
     let mut net = gen_net(rng, 12);
     let target = addr_of(TARGET, false);
@@ -165,6 +207,17 @@ fn case(run: &mut Run, rng: &mut Rng, dns: &DnsResolver) {
             }
         }
         run.count("report:rows-compared");
+        // C05 as the report shows it: every statistics column is the hop's own figure (loss, last, mean, best, worst,
+        // standard deviation; the JSON report also the jitter figures)
+        let shown = stats_shown(kind, &text);
+        let wanted: Vec<Vec<String>> = st.hops().iter().map(|h| stats_wanted(kind, h)).collect();
+        if shown != wanted {
+            let k = shown.iter().zip(&wanted).position(|(a, b)| a != b).unwrap_or(shown.len().min(wanted.len()));
+            run.fail("c05-report-stats", format!("{kind} report, {ctx}: statistics of row {k} are {:?}, the hop's are {:?} (loss, last, mean, best, worst, stddev{})",
+                shown.get(k), wanted.get(k), if kind == "json" { ", jitter, javg, jmax, jinta" } else { "" }));
+        } else {
+            run.count("report:stats-compared");
+        }
         // C19 in the JSON report: `nat` is null / false / true as the hop's status is not applicable / not detected / detected
         if kind == "json" {
             let shown: Vec<String> = text.split("\"ttl\":").skip(1).map(|seg| {
